@@ -320,6 +320,15 @@ def run(ctx):
             allowed = set(m.all_param_names)
             ok = free <= allowed
             why = 'closure reads %s' % sorted(free)
+            # what is handed to the wrapped call is this request's own data: parameters (or attributes of them), never a field of the proxy
+            # that later requests go on changing before the flusher gets to run
+            inner = [c_ for c_ in ast.walk(l) if isinstance(c_, ast.Call) and isinstance(c_.func, ast.Attribute) and c_ is not l]
+            for c_ in inner:
+                for a_ in list(c_.args) + [k.value for k in c_.keywords]:
+                    if any(isinstance(x, ast.Attribute) and isinstance(x.value, ast.Name) and x.value.id == 'self' for x in ast.walk(a_)) and \
+                            'wrapped' in norm(c_.func.value):
+                        ok = False
+                        why = 'the queued call is given `%s` (a field of the proxy, read when the flusher runs), not a parameter of this request' % norm(a_)
             # enqueue not inside a loop, lambda not reading a loop variable
             for lp in [n for n in ast.walk(m.node) if isinstance(n, (ast.For, ast.While))]:
                 if any(x is enq[0] for x in ast.walk(lp)):
